@@ -12,7 +12,7 @@ git apply $out/change$n.diff || { echo "APPLY FAILED"; exit 2; }
 demo=$(ls $out/demo${n}_test.go 2>/dev/null)
 pkg=$(head -30 $demo | grep -m1 '^package ' | awk '{print $2}')
 dest=zz_seed_demo${n}_test.go; dir=.
-[ "$pkg" = "mocks" ] && dir=mocks
+case "$pkg" in mocks|mocks_test) dir=mocks;; esac
 cp $demo $dir/$dest
 echo "--- demo WITH change (expect FAIL)"
 (cd $dir && go test -vet=off -count=1 -timeout 5m -run 'Demo|Seed' . 2>&1 | tail -4)
